@@ -1,6 +1,8 @@
 (* C08 - inclusions p <= Z <= W <= lex (both modes).  (p <= c <= W: see the c-inference development.) *)
 From InfOCF Require Import Core Tol Form Model Spec Exec CModel ThmIncl ThmPExt ThmCW.
 From InfOCFProps Require Import Ex.
+From InfOCF Require Import PyLib TieCons TieAnsP TieAnsZ TieAnsW TieAnsLex TieRel08.
+From Coq Require Import ZArith.
 
 (* on the definitions, for every world list (any signature size, feasible worlds included) and partition *)
 Theorem C08_z_sub_w_definition : forall Wl q P, z_spec Wl P q = true -> w_spec Wl P q = true.
@@ -48,3 +50,23 @@ Print Assumptions C08_c_sub_w.
 Example birds_separates : infer 4 SysZ false birds q_wp = Ans false /\ infer 4 SysW false birds q_wp = Ans true
   /\ infer 4 SysP false birds q_nfp = Ans true /\ infer 4 SysLex false birds q_nfp = Ans true.
 Proof. vm_compute. repeat split. Qed.
+
+(* SOURCE TIE.  src_p / src_z / src_w / src_lex b: "the functions GENERATED from /repo's sources on this run - the consistency
+   test on the base, then the quick checks of general_inference around the operator body on the partition that test
+   returned - answer b" (TieAns*.v; each such answer is the model's `infer`, and on every base the model accepts there is
+   one).  The inclusion chain holds of those answers, in both modes. *)
+Theorem C08_source_chain_strict : forall n D, NoDup (map kzc D) -> D <> [] -> forall q bp bz bw bl,
+  src_p n D false q bp -> src_z n D false q bz -> src_w n D false q bw -> src_lex n D false q bl ->
+  (bp = true -> bz = true) /\ (bz = true -> bw = true) /\ (bw = true -> bl = true).
+Proof. exact src_chain_strict. Qed.
+Print Assumptions C08_source_chain_strict.
+Theorem C08_source_chain_extended : forall n D, NoDup (map kzc D) -> D <> [] -> forall q bp bz bw bl,
+  src_p n D true q bp -> src_z n D true q bz -> src_w n D true q bw -> src_lex n D true q bl ->
+  (bp = true -> bz = true) /\ (bz = true -> bw = true) /\ (bw = true -> bl = true).
+Proof. exact src_chain_extended. Qed.
+Print Assumptions C08_source_chain_extended.
+Theorem C08_source_answers_exist : forall n D, NoDup (map kzc D) -> D <> [] -> forall weakly q P, consistency n weakly D = Some P ->
+  (exists b, src_p n D weakly q b) /\ (exists b, src_z n D weakly q b) /\ (exists b, src_w n D weakly q b) /\ (exists b, src_lex n D weakly q b).
+Proof. intros n D Hnd HD weakly q P HP. repeat split;
+  [exact (src_p_exists n D HD weakly q P HP)|exact (src_z_exists n D HD weakly q P HP)|exact (src_w_exists n D Hnd HD weakly q P HP)|exact (src_lex_exists n D Hnd HD weakly q P HP)]. Qed.
+Print Assumptions C08_source_answers_exist.
